@@ -64,6 +64,14 @@ def _run_item(item):
         pass
     E = None
     try:
+        # globals of the float world live in the worker process: start every item from the integer-only state
+        import symx.core as _c
+        from symx import fpworld as _fw
+        _c.FP_MODE[0] = False
+        _fw.reset()
+    except Exception:
+        pass
+    try:
         fn = item.make()
         E = Engine(timeout_ms=item.solver_ms, max_paths=item.max_paths, deadline=t0 + item.timeout_s)
         funcs = set()
